@@ -501,9 +501,10 @@ func (dec *Decoder) preallocList(count int, size uintptr) int {
 
 // maxDepth bounds the nesting of lists, maps and objects in the input. Every level is a level
 // of recursion in the decoder: without a bound a few megabytes of "a1{a1{a1{..." exhaust
-// the goroutine stack, which no recover can catch. A hundred thousand levels (a linked
-// list of that length, written as nested objects) stay far below that.
-const maxDepth = 100000
+// the goroutine stack, which no recover can catch. Two hundred thousand levels (a chain of a
+// hundred thousand nodes linked through lists: an object and a list per node) use about a
+// quarter of it.
+const maxDepth = 200000
 
 // enter is called by the decoders of containers; it fails when the input nests too deep.
 func (dec *Decoder) enter() bool {
